@@ -1231,6 +1231,7 @@ func c12() {
 			}
 		}
 	}
+	c03Fixed2(40) // declared shapes with unexported fields between exported ones (field numbering)
 }
 
 // c12Legal emits the w.dec case of a legal encoding w of the value whose canonical text is want, after checking
